@@ -13,13 +13,13 @@ import (
 
 // Val is a symbolic value.
 type Val struct {
-	T   string     // SMT term
-	S   string     // SMT sort
-	Ty  types.Type // Go type when known
-	P   *Ptr       // structured pointer (pointers into objects have no Ref term)
-	Tup []Val      // tuple (multi-value call results)
-	K   *big.Int   // untyped integer constant (spec evaluation only)
-	Clo *Closure   // closure made in this function (inlined when deferred/called)
+	T    string     // SMT term
+	S    string     // SMT sort
+	Ty   types.Type // Go type when known
+	P    *Ptr       // structured pointer (pointers into objects have no Ref term)
+	Tup  []Val      // tuple (multi-value call results)
+	K    *big.Int   // untyped integer constant (spec evaluation only)
+	Clo  *Closure   // closure made in this function (inlined when deferred/called)
 	Orig types.Type // pointee type before a cast through unsafe.Pointer
 }
 
